@@ -1,5 +1,6 @@
 import UtilModel.Conc.Props
 import UtilModel.Core.LTSHash
+import UtilModel.Conc.Transfer
 open UtilModel UtilModel.Conc
 #print axioms UtilModel.accepts_sound
 #print axioms UtilModel.acceptsH_sound
@@ -23,3 +24,4 @@ open UtilModel UtilModel.Conc
 #print axioms Conc.C18_obs
 #print axioms Conc.C18_obs_core
 #print axioms UtilModel.monitor_of_simulation
+#print axioms UtilModel.C18_accepted
